@@ -203,8 +203,11 @@ fn is_assignment(w: &str) -> bool {
 }
 
 /// Performs POSIX 2.3.1 alias substitution by hand; returns the substituted text.
-fn refalias(line: &str, table: &[Option<&str>; 3]) -> Option<String> {
+fn refalias(line: &str, table: &[Option<&str>; 3], c_is_global: bool) -> Option<String> {
     let lookup = |name: &str| NAMES.iter().position(|n| *n == name).and_then(|i| table[i]);
+    // a global alias is substituted in any word of a command (not in redirection operands, which
+    // the parser leaves alone)
+    let global = |name: &str| c_is_global && name == "c";
     let mut toks: Vec<T> = tokenize(line, &BTreeSet::new());
     let mut out: Vec<String> = vec![];
     let mut i = 0;
@@ -249,7 +252,7 @@ fn refalias(line: &str, table: &[Option<&str>; 3]) -> Option<String> {
                 check_next = false;
             }
             Tok::Word(w, quoted) => {
-                let eligible = !quoted && (cmd_pos || check_next) && !t.inhibit.contains(w) && lookup(w).is_some();
+                let eligible = !quoted && (cmd_pos || check_next || global(w)) && !t.inhibit.contains(w) && lookup(w).is_some();
                 if eligible {
                     let val = lookup(w).unwrap();
                     let mut inh = t.inhibit.clone();
@@ -337,23 +340,26 @@ pub fn run(tier: Tier) -> i32 {
     let substituted = AtomicU64::new(0);
     let unspec = AtomicU64::new(0);
     let samples = Samples::new(8);
-    let tables: Vec<[usize; 3]> = (0..nv * nv * nv).map(|k| [k % nv, (k / nv) % nv, k / (nv * nv)]).collect();
+    // (value of a, value of b, value of c, c is a global alias)
+    let mut tables: Vec<([usize; 3], bool)> = (0..nv * nv * nv).map(|k| ([k % nv, (k / nv) % nv, k / (nv * nv)], false)).collect();
+    let globals: Vec<([usize; 3], bool)> = tables.iter().filter(|(idx, _)| idx[2] != 0).map(|(idx, _)| (*idx, true)).collect();
+    tables.extend(globals);
     let thin = tier.pick(2, 1);
-    tables.par_iter().enumerate().for_each(|(ti, idx)| {
+    tables.par_iter().enumerate().for_each(|(ti, (idx, c_global))| {
         let table: [Option<&str>; 3] = [VALUES[idx[0]], VALUES[idx[1]], VALUES[idx[2]]];
         let mut set = AliasSet::new();
         for (n, v) in NAMES.iter().zip(table.iter()) {
             if let Some(v) = v {
-                set.insert(HashEntry::new(n.to_string(), v.to_string(), false, Location::dummy("alias")));
+                set.insert(HashEntry::new(n.to_string(), v.to_string(), *c_global && *n == "c", Location::dummy("alias")));
             }
         }
         for (li, line) in LINES.iter().enumerate() {
             if (ti + li) % thin != 0 {
                 continue;
             }
-            let _guard = case_guard(json!({"aliases": format!("{table:?}"), "line": line}).to_string());
+            let _guard = case_guard(json!({"aliases": format!("{table:?}"), "c_global": c_global, "line": line}).to_string());
             evals.fetch_add(1, Relaxed);
-            let describe = |extra: serde_json::Value| json!({"aliases": NAMES.iter().zip(table.iter()).map(|(n, v)| format!("{n}={v:?}")).collect::<Vec<_>>(), "line": line, "detail": extra});
+            let describe = |extra: serde_json::Value| json!({"c_is_global_alias": c_global, "aliases": NAMES.iter().zip(table.iter()).map(|(n, v)| format!("{n}={v:?}")).collect::<Vec<_>>(), "line": line, "detail": extra});
             let got = catch(|| parse_with(line, &set));
             let got = match got {
                 Err(p) => {
@@ -366,7 +372,7 @@ pub fn run(tier: Tier) -> i32 {
                 }
                 Ok(r) => r,
             };
-            let Some(text) = refalias(line, &table) else {
+            let Some(text) = refalias(line, &table, *c_global) else {
                 unspec.fetch_add(1, Relaxed);
                 continue;
             };
@@ -380,7 +386,9 @@ pub fn run(tier: Tier) -> i32 {
                 _ => false,
             };
             if !same {
-                let key = if LINES[li].contains("\\\n") {
+                let key = if *c_global {
+                    "c17:global-alias"
+                } else if LINES[li].contains("\\\n") {
                     "c17:line-continuation"
                 } else if table.iter().flatten().any(|v| v.contains('>') || v.contains('|') || v.contains(';') || *v == "{" || *v == "!" || *v == "if") {
                     "c17:operator-or-keyword-from-alias"
@@ -406,12 +414,12 @@ pub fn run(tier: Tier) -> i32 {
     let cov = json!({
         "evaluations": evals.load(Relaxed),
         "distinct_nontrivial": substituted.load(Relaxed),
-        "rule": format!("every alias table over names a,b,c with each name undefined or one of {} values (empty, other names with and without trailing blank, itself, x, x y, if, !, {{, ;, | x, > f, 'b', \\b, 2>&1 x ) = {} tables x {} command lines placing the names in command, argument, post-assignment, post-redirection, post-keyword, post-! | && ( positions, quoted, and across line continuations (quick: every second (table,line) pair); the real parser with the alias table must terminate and produce the tree of the hand-substituted text parsed without aliases (Locations erased). Non-trivial = the hand substitution changed the line.", nv - 1, tables.len(), LINES.len()),
+        "rule": format!("every alias table over names a,b,c with each name undefined or one of {} values (empty, other names with and without trailing blank, itself, x, x y, if, !, {{, ;, | x, > f, 'b', \\b, 2>&1 x ) = {} tables x {} command lines placing the names in command, argument, post-assignment, post-redirection, post-keyword, post-! | && ( positions, quoted, and across line continuations (quick: every second (table,line) pair), and the same tables with c marked as a global alias (substituted in any word of a command); the real parser with the alias table must terminate and produce the tree of the hand-substituted text parsed without aliases (Locations erased). Non-trivial = the hand substitution changed the line.", nv - 1, tables.len(), LINES.len()),
         "samples": samples.take(),
         "tables": tables.len(),
         "lines": LINES.len(),
         "skipped_unspecified": unspec.load(Relaxed),
         "exhaustive": true,
     });
-    ctx.finish(cov, &["refalias (POSIX 2.3.1 on a tokenizer for this alphabet) trusted", "global aliases are not covered (the alias built-in has no way to define them)"])
+    ctx.finish(cov, &["refalias (POSIX 2.3.1 on a tokenizer for this alphabet) trusted", "global aliases: only the rule 'substituted in any word of a simple command' is asserted (redirection operands and other word contexts are a TODO in the parser and undocumented)"])
 }
